@@ -25,9 +25,9 @@ META = {
     ],
     "rule": "one path per (ACL, old, new) index; non-trivial = patch has >=1 command and old holds >=1 uncovered row; distinct by index",
     "explanation": "",
-    "assumptions": ["generator output is ACL-covered (production enforces it with fatal_acl): new = RefAcl filter of the candidate",
+    "assumptions": ["the candidate generator output goes into _diff_and_patch unfiltered (the function applies the ACL to both sides); its RefAcl filter is what must be on the device afterwards",
                     "rulebook uses default logic only (commands are the row or its negation)", "vendors huawei and cisco",
-                    "ACL grammar without local/global overlap (see C06 grammar.disjoint)"],
+                    "competing ACL matches are ranked by RefAcl as in C06 (%prio, specificity, text order); the governing rule decides cant_delete"],
     "outside": ["filter-ACL", "vendor logic emitting other commands", "annotations"],
     "bounds": {},
 }
